@@ -537,32 +537,38 @@ impl DeviceControl for ControlHandle {
         let payload_alignment: u32 = unwrap_or_log!(u32::try_from(payload_alignment).map_err(|_| {
             ControlError::InvalidDevice("payload size alignment doesn't fit into 32 bits".into())
         }));
-        macro_rules! align {
-            ($expr:expr, $ty: ty) => {
-                // Payload alignment is always power of two.
-                ($expr + (payload_alignment as $ty - 1)) & !(payload_alignment as $ty - 1)
-            };
-        }
+        // Payload alignment is always power of two.
+        let alignment_mask = payload_alignment - 1;
+        let align = |size: u32| {
+            size.checked_add(alignment_mask)
+                .map(|size| size & !alignment_mask)
+                .ok_or_else(|| {
+                    ControlError::InvalidDevice("aligned size doesn't fit into 32 bits".into())
+                })
+        };
 
         let required_leader_size = unwrap_or_log!(sirm.required_leader_size(self));
         let required_payload_size = unwrap_or_log!(sirm.required_payload_size(self));
         let required_trailer_size = unwrap_or_log!(sirm.required_trailer_size(self));
 
-        let payload_transfer_size = align!(PAYLOAD_TRANSFER_SIZE, u32);
+        let payload_transfer_size = unwrap_or_log!(align(PAYLOAD_TRANSFER_SIZE));
         let payload_transfer_count = (required_payload_size / payload_transfer_size as u64) as u32;
-        let payload_final_transfer1_size =
-            align!(required_payload_size % payload_transfer_size as u64, u64) as u32;
+        // The remainder is smaller than the transfer size which is a multiple of the alignment, so
+        // the aligned remainder doesn't exceed the transfer size.
+        let payload_final_transfer1_size = ((required_payload_size % payload_transfer_size as u64
+            + alignment_mask as u64)
+            & !(alignment_mask as u64)) as u32;
         let payload_final_transfer2_size = 0;
 
         let maximum_leader_size = if required_leader_size == 0 {
             payload_transfer_size
         } else {
-            align!(required_leader_size, u32)
+            unwrap_or_log!(align(required_leader_size))
         };
         let maximum_trailer_size = if required_trailer_size == 0 {
             payload_transfer_size
         } else {
-            align!(required_trailer_size, u32)
+            unwrap_or_log!(align(required_trailer_size))
         };
 
         unwrap_or_log!(sirm.set_payload_transfer_size(self, payload_transfer_size));
